@@ -25,11 +25,11 @@ Theorem impl_well_locked : well_locked impl_prog = true.
 Proof. exact impl_well_locked_l. Qed.
 Print Assumptions impl_well_locked.
 
-(* the other facts read from the source: the key tested is the key set, urllib files it under
-   the observed name, the id ends in <non-digit><number>, the counter starts >= 0,
+(* the other facts read from the source: the name tested (case-insensitively) is the lower-case form of the
+   key set, urllib files it under the observed name, the id ends in <non-digit><number>, the counter starts >= 0,
    derived connections call the root's implementation object *)
 Theorem consts_ok :
-  hdr_test_key = hdr_set_key /\ cap hdr_set_key = obs_key /\ sep_ok fmt_sep = true /\
+  hdr_test_key = map lower hdr_set_key /\ cap hdr_set_key = obs_key /\ sep_ok fmt_sep = true /\
   0 <= ctr_init /\ shares_impl = true /\ wrap_rule = RShareParent.
 Proof.
   exact (conj keys_agree (conj (str_eqb_eq _ _ set_key_observed)
@@ -103,7 +103,7 @@ Proof. intros cp c0 reqs sched. exact (consumed_l cp impl_prog c0 reqs sched imp
 Print Assumptions gapfree_at_rest.
 
 (* what each request carried: thread t's requests R split into done / current / to come, and the opener saw for
-   every done request h either the caller's own value and no number (id supplied under the documented key) or
+   every done request h either the caller's own value and no number (id supplied under any spelling of the name) or
    a generated id fmt(n); in particular no request raised *)
 Theorem every_request_answered : forall cp c0 reqs sched t th R,
   let st := exec cp impl_prog sched (init (Some c0) reqs) in
@@ -115,13 +115,33 @@ Theorem every_request_answered : forall cp c0 reqs sched t th R,
 Proof. intros cp c0 reqs sched t th R. exact (answered_l cp impl_prog impl_well_locked_l c0 reqs sched t th R). Qed.
 Print Assumptions every_request_answered.
 
-(* an id supplied under the documented key, with no other spelling beside it, is what is sent *)
-Theorem caller_id_sent_unchanged : forall h1 h2 v,
-  Forall other_key h1 -> Forall other_key h2 ->
-  let h := h1 ++ (hdr_test_key, v) :: h2 in
+(* [supplied h] is do_request's test any(name.lower() == 'x-request-id' for name in headers); [is_spelling k]: k.lower() is
+   that name.  An id supplied under ANY spelling of the header name is recognised and is what is sent (with
+   every_request_answered: and no number is used) *)
+Theorem caller_id_sent_unchanged : forall h1 h2 k v,
+  is_spelling k = true -> Forall other_key h1 -> Forall other_key h2 ->
+  let h := h1 ++ (k, v) :: h2 in
   supplied h = true /\ sent_value h None = Some v.
 Proof. exact caller_value_l. Qed.
 Print Assumptions caller_id_sent_unchanged.
+
+(* the test and urllib agree on what a spelling is: name.capitalize() = 'X-request-id' iff name.lower() = 'x-request-id' *)
+Theorem spellings_agree : forall k, str_eqb (cap k) obs_key = is_spelling k.
+Proof. exact spelling_iff. Qed.
+Print Assumptions spellings_agree.
+
+(* several spellings in one dict (urllib keeps one header per capitalised name, the later entry wins): whenever the test
+   recognises a caller id, the value sent is the caller's value under the LAST spelling in the dict *)
+Theorem supplied_id_last_spelling_sent : forall h, supplied h = true ->
+  exists h1 k v h2, h = h1 ++ (k, v) :: h2 /\ is_spelling k = true /\ Forall other_key h2 /\
+                    sent_value h None = Some v.
+Proof. exact supplied_value_l. Qed.
+Print Assumptions supplied_id_last_spelling_sent.
+
+(* and a request without any spelling of the name has none after capitalisation either: nothing of the caller's is overwritten *)
+Theorem not_supplied_no_spelling : forall h, supplied h = false -> Forall other_key h.
+Proof. exact supplied_false_other. Qed.
+Print Assumptions not_supplied_no_spelling.
 
 (* the id is injective in the sequence number (even across connection parts) ... *)
 Theorem id_injective : forall cp1 cp2 n m, 0 <= n -> 0 <= m -> fmt cp1 n = fmt cp2 m -> n = m.
@@ -228,37 +248,43 @@ Proof. exact demo_l. Qed.
 Print Assumptions interleaved_run.
 
 Example documented_key_passed_on :
-  let st := exec [] impl_prog (repeat 0%nat 3) (init (Some 0) [[[(hdr_test_key, mine)]]]) in
+  let st := exec [] impl_prog (repeat 0%nat 3) (init (Some 0) [[[(hdr_set_key, mine)]]]) in
   map out (threads st) = [[Sent None (Some mine)]] /\ ctr st = Some 0 /\ finished st.
 Proof. exact exact_l. Qed.
 Print Assumptions documented_key_passed_on.
 
-(* CANDIDATE FINDING (c16.notes.md): 'supplied' means the exact spelling 'X-Request-ID'.  With
-   headers={'x-request-id': 'mine'} the caller's id is replaced by a generated one and number 0 is used. *)
-Example other_spelling_is_replaced :
-  let st := exec [] impl_prog (repeat 0%nat 8) (init (Some 0) [[[(x_lower, mine)]]]) in
-  supplied [(x_lower, mine)] = false /\
-  map out (threads st) = [[Sent (Some 0) (Some (fmt [] 0))]] /\ ctr st = Some 1 /\
-  fmt [] 0 <> mine.
+(* REGRESSION of finding caller-id-respelled-replaced (fixed in /repo by 2323115): with headers={'x-request-id': 'mine'}
+   the caller's id is sent and no number is used (it used to be replaced by fmt 0, the counter going to 1) *)
+Example other_spelling_passed_on :
+  let st := exec [] impl_prog (repeat 0%nat 3) (init (Some 0) [[[(x_lower, mine)]]]) in
+  supplied [(x_lower, mine)] = true /\
+  map out (threads st) = [[Sent None (Some mine)]] /\ ctr st = Some 0 /\ finished st.
 Proof. exact respelled_l. Qed.
-Print Assumptions other_spelling_is_replaced.
+Print Assumptions other_spelling_passed_on.
+
+Example two_spellings_last_wins :
+  let st := exec [] impl_prog (repeat 0%nat 6)
+                 (init (Some 0) [[[(hdr_set_key, mine); (x_caps, other_id)]; [(x_caps, other_id); (hdr_set_key, mine)]]]) in
+  map out (threads st) = [[Sent None (Some mine); Sent None (Some other_id)]] /\ ctr st = Some 0 /\ finished st.
+Proof. exact two_spellings_l. Qed.
+Print Assumptions two_spellings_last_wins.
 
 (* an EMPTY id supplied under the documented key is an id: sent as it is, no number used, the next request gets 0 *)
 Example empty_caller_id_passed_on :
-  let st := exec [] impl_prog (repeat 0%nat 11) (init (Some 0) [[[(hdr_test_key, [])]; []]]) in
+  let st := exec [] impl_prog (repeat 0%nat 11) (init (Some 0) [[[(hdr_set_key, [])]; []]]) in
   map out (threads st) = [[Sent (Some 0) (Some (fmt [] 0)); Sent None (Some [])]] /\ ctr st = Some 1 /\ finished st.
 Proof. exact empty_id_l. Qed.
 Print Assumptions empty_caller_id_passed_on.
 
 (* the hypotheses of caller_id_sent_unchanged are satisfiable with other headers on both sides *)
 Example caller_id_between_other_headers :
-  Forall other_key [accept_hdr] /\ Forall other_key [xother_hdr] /\
-  sent_value ([accept_hdr] ++ (hdr_test_key, mine) :: [xother_hdr]) None = Some mine.
+  is_spelling x_caps = true /\ Forall other_key [accept_hdr] /\ Forall other_key [xother_hdr] /\
+  sent_value ([accept_hdr] ++ (x_caps, mine) :: [xother_hdr]) None = Some mine.
 Proof. exact other_keys_l. Qed.
 Print Assumptions caller_id_between_other_headers.
 
 Example disabled_run :
-  let st := exec [] impl_prog [0; 1; 0; 1; 0; 1]%nat (init None [[[]]; [[(hdr_test_key, mine)]]]) in
+  let st := exec [] impl_prog [0; 1; 0; 1; 0; 1]%nat (init None [[[]]; [[(hdr_set_key, mine)]]]) in
   finished st /\ map out (threads st) = [[Sent None None]; [Sent None (Some mine)]] /\ ctr st = None.
 Proof. exact disabled_run_l. Qed.
 Print Assumptions disabled_run.
